@@ -657,7 +657,9 @@ def rdsystem_from_dict(d, parent_units_system=UnitsSystem(), base_path=None):
     else :
         raise ValueError("missing system network.")
 
-    if "space" in d :
+    if d.get("space", None) is None :
+        da["space"] = RDGridSpace(units_system=da["units_system"])
+    else :
         space = d["space"]
     
         if isdict(space) :
